@@ -1040,6 +1040,18 @@ impl<'tcx> Cx<'tcx> {
                     f.push(("uneval", q(&path_s(tcx, u.def))));
                     if let Some(p) = u.promoted {
                         f.push(("promoted", p.as_usize().to_string()));
+                    } else if u.args.is_empty() && (ty.is_integral() || ty.is_bool()) {
+                        // a named, non-generic integer constant (`const END: i32 = 1`) is the same operand as its literal value
+                        if let Some(s) = c.const_.try_eval_scalar_int(tcx, tenv) {
+                            let bits = s.to_bits(s.size());
+                            let val: i128 = if ty.is_signed() {
+                                let sh = 128 - s.size().bits() as u32;
+                                ((bits as i128) << sh) >> sh
+                            } else {
+                                bits as i128
+                            };
+                            f.push(("int", val.to_string()));
+                        }
                     }
                 }
             }
